@@ -34,7 +34,7 @@ func init() {
 		GoMaxProcs:            1,
 		Assumptions: []string{
 			"allocation rule: delta TotalAlloc of one decoder call > 64 MiB + 4096 x len(input) (single worker per child, GOMAXPROCS=1)",
-			"hang rule: a decoder batch still running after 2 x (10 s + 1 ms/byte) with the worker inside zcrypto frames",
+			"hang rule: the decoders of one input have used more than 20 s + 2 ms/byte of process CPU time (not wall clock) and the worker is still inside zcrypto frames",
 			"children run under RLIMIT_AS 6 GiB so a runaway allocation kills the child (input already on disk), not the machine",
 			"TLS message unmarshal reached through the accessor hook tls/zz_verif_parse.go",
 		},
@@ -54,37 +54,58 @@ var reZFrame = regexp.MustCompile(`(?m)^(github\.com/zmap/zcrypto[^\s(]*)`)
 
 type batchResult struct {
 	Hang     bool
-	Slow     bool // exceeded the first budget but finished within the second
+	Stalled  bool // no hang by CPU time, but the wall-clock cap was reached (machine stalled): inconclusive
 	HangDump string
 	Alloc    uint64
+	CPU      time.Duration
+	Wall     time.Duration
 }
 
-// guardBatch runs f on a worker goroutine, measuring allocation; a worker still
-// running after twice the budget is a hang (it cannot be cancelled: the caller ends the child).
+func processCPU() time.Duration {
+	var ru syscall.Rusage
+	if syscall.Getrusage(syscall.RUSAGE_SELF, &ru) != nil {
+		return 0
+	}
+	return time.Duration(ru.Utime.Nano() + ru.Stime.Nano())
+}
+
+// guardBatch runs f on a worker goroutine, measuring allocation. The step
+// budget is CPU time of this (single-threaded) process, not wall-clock time: a
+// parser that does not terminate burns CPU, while a machine that is merely
+// overloaded does not make the process consume more of it. A worker that has
+// used more than the budget and is still going is a hang (it cannot be
+// cancelled: the caller ends the child). A wall-clock cap (60 x budget) catches
+// the theoretical blocked-without-CPU case and is reported as inconclusive.
 func guardBatch(budget time.Duration, f func()) batchResult {
 	var res batchResult
 	var before, after runtime.MemStats
 	runtime.ReadMemStats(&before)
+	cpu0, t0 := processCPU(), time.Now()
 	done := make(chan struct{})
 	go func() { defer close(done); f() }()
-	t := time.NewTimer(budget)
-	select {
-	case <-done:
-		t.Stop()
-	case <-t.C:
-		t2 := time.NewTimer(budget)
+	tick := time.NewTicker(200 * time.Millisecond)
+	defer tick.Stop()
+loop:
+	for {
 		select {
 		case <-done:
-			t2.Stop()
-			res.Slow = true
-		case <-t2.C:
-			buf := make([]byte, 1<<20)
-			n := runtime.Stack(buf, true)
-			res.Hang = true
-			res.HangDump = string(buf[:n])
-			return res
+			break loop
+		case <-tick.C:
+			res.CPU, res.Wall = processCPU()-cpu0, time.Since(t0)
+			if res.CPU > budget || res.Wall > 60*budget {
+				buf := make([]byte, 1<<20)
+				n := runtime.Stack(buf, true)
+				res.HangDump = string(buf[:n])
+				if res.CPU > budget {
+					res.Hang = true
+				} else {
+					res.Stalled = true
+				}
+				return res
+			}
 		}
 	}
+	res.CPU, res.Wall = processCPU()-cpu0, time.Since(t0)
 	runtime.ReadMemStats(&after)
 	res.Alloc = after.TotalAlloc - before.TotalAlloc
 	return res
@@ -152,7 +173,7 @@ func (r *c01Runner) runCase(id string, in c01Input, data []byte) (accepted bool)
 	es := r.entriesOf(in)
 	saved := zasn1.AllowPermissiveParsing
 	defer func() { zasn1.AllowPermissiveParsing = saved }()
-	budget := 10*time.Second + time.Duration(len(data))*time.Millisecond
+	budget := 20*time.Second + 2*time.Duration(len(data))*time.Millisecond
 	for _, mode := range []bool{false, true} {
 		modeName := "strict"
 		if mode {
@@ -178,8 +199,13 @@ func (r *c01Runner) runCase(id string, in c01Input, data []byte) (accepted bool)
 			}
 		}
 		res := guardBatch(budget, batch)
-		if res.Slow {
-			c.Count("slow_batches_over_budget_but_finished", 1)
+		c.Max("batch_cpu_ms", int(res.CPU/time.Millisecond))
+		c.Max("batch_wall_ms", int(res.Wall/time.Millisecond))
+		if res.Stalled {
+			c.Note("case %s: wall-clock cap reached with only %v of CPU used (machine stalled); shard stopped", id, res.CPU)
+			c.Count("stalled_without_cpu", 1)
+			r.dead = true
+			return accepted
 		}
 		if res.Hang {
 			name := "?"
@@ -188,7 +214,7 @@ func (r *c01Runner) runCase(id string, in c01Input, data []byte) (accepted bool)
 			}
 			frame := hangFrame(res.HangDump)
 			if frame != "" {
-				c.Violation("hang:"+name+"@"+frame, fmt.Sprintf("decoder %s (%s mode) still running after %v\n%s", name, modeName, 2*budget, res.HangDump), id, in)
+				c.Violation("hang:"+name+"@"+frame, fmt.Sprintf("decoder %s (%s mode) still running after %v of CPU time (wall %v)\n%s", name, modeName, res.CPU, res.Wall, res.HangDump), id, in)
 			} else {
 				c.Note("case %s: budget exceeded in %s but the worker was not inside zcrypto frames (inconclusive)", id, name)
 				c.Count("hang_budget_exceeded_outside_zcrypto", 1)
@@ -205,8 +231,8 @@ func (r *c01Runner) runCase(id string, in c01Input, data []byte) (accepted bool)
 			found := false
 			for _, e := range es {
 				buf := append([]byte(nil), data...)
-				one := core.GuardFull(budget, true, func() { e.run(buf) })
-				if one.Hang {
+				one := guardBatch(budget, func() { core.Guard(func() { e.run(buf) }) })
+				if one.Hang || one.Stalled {
 					r.dead = true
 					return accepted
 				}
